@@ -359,6 +359,9 @@ pub enum SOp {
     EncDec(u8, bool),
     SerDes(u8, bool),
     BatchNorm(Vec<u8>),
+    /// r_i = (r_i + r_j) + (r_i - r_j), or with `true` (r_i + r_j) - (r_i - r_j): the two operands of the last step
+    /// were produced from the same pair of points and share their Z coordinate (Z3 depends on the x's only)
+    SumDiff(u8, u8, bool),
 }
 
 #[derive(Clone, Debug, Serialize, Deserialize, PartialEq, Eq, Hash)]
@@ -428,6 +431,7 @@ fn sop_strategy() -> BoxedStrategy<SOp> {
         2 => (r(), any::<bool>()).prop_map(|(i, c)| SOp::EncDec(i, c)),
         2 => (r(), any::<bool>()).prop_map(|(i, c)| SOp::SerDes(i, c)),
         1 => proptest::collection::vec(r(), 0..5).prop_map(SOp::BatchNorm),
+        2 => (r(), r(), any::<bool>()).prop_map(|(i, j, m)| SOp::SumDiff(i, j, m)),
     ]
     .boxed()
 }
@@ -616,6 +620,19 @@ where
                 cp[i] = t;
                 mp[i] = if sub { curve.sub(&mp[i], &mp[j]) } else { curve.add(&mp[i], &mp[j]) };
                 (if sub { "sub_assign" } else { "add_assign" }, i)
+            }
+            SOp::SumDiff(i, j, minus) => {
+                let (i, j) = (*i as usize % n, *j as usize % n);
+                let o = cp[j];
+                let mut s = cp[i];
+                let mut d = cp[i];
+                cr("add", || G::op_add(&mut s, &o))?;
+                cr("sub", || G::op_sub(&mut d, &o))?;
+                cr("add/sub of sum and difference", || if *minus { G::op_sub(&mut s, &d) } else { G::op_add(&mut s, &d) })?;
+                cp[i] = s;
+                let (ms, md) = (curve.add(&mp[i], &mp[j]), curve.sub(&mp[i], &mp[j]));
+                mp[i] = if *minus { curve.sub(&ms, &md) } else { curve.add(&ms, &md) };
+                ("(P+Q) +- (P-Q)", i)
             }
             SOp::AddMixed(i, j) => {
                 let (i, j) = (*i as usize % n, *j as usize % n);
